@@ -352,17 +352,81 @@ Proof.
 Qed.
 
 (* ------------------------------------------------------------------------------------------ *)
+(** * hand-over of the deposit (bank SendCoins receiver -> refund address) *)
+
+Definition Mv (h : Z) (tot : Z -> Z) (k : key) : Z :=
+  let '(hh, kind, t) := k in if (hh =? h) && (kind =? Base) then tot t else 0.
+Definition Dm (tot : Z -> Z) (k : key) : Z :=
+  let '(hh, kind, t) := k in
+  (if (hh =? ModX) && (kind =? Bridge) then tot t else 0) +
+  (if (hh =? Supply) && (kind =? Bridge) then tot t else 0) +
+  (if (hh =? Supply) && (kind =? Base) then tot t else 0).
+
+Lemma D_split h tot k : D h tot k = Mv h tot k + Dm tot k.
+Proof. destruct k as [[hh kind] t]. unfold D, Mv, Dm. lia. Qed.
+
+Lemma Mv_add h f g k : Mv h (fun x => f x + g x) k = Mv h f k + Mv h g k.
+Proof. destruct k as [[hh kind] x]. unfold Mv. destruct ((hh =? h) && (kind =? Base)); lia. Qed.
+Lemma Mv_ext h f g k : (forall x, f x = g x) -> Mv h f k = Mv h g k.
+Proof. intros H. destruct k as [[hh kind] x]. unfold Mv. rewrite H. reflexivity. Qed.
+
+Lemma ladd2_Mv l a b t x k :
+  ladd (ladd l (a, Base, t) (- x)) (b, Base, t) x k = l k - Mv a (one t x) k + Mv b (one t x) k.
+Proof.
+  destruct k as [[hh kind] y]. unfold ladd, Mv, one, key_eqb.
+  repeat match goal with |- context [?a =? ?b] => destruct (Z.eqb_spec a b); subst end;
+    cbn [andb]; try lia; try congruence.
+Qed.
+
+Lemma move_effect a b coins : forall s s',
+  run_steps (map (move_one a b) coins) s = Ok s' ->
+  (forall k, bal s' k = bal s k - Mv a (total coins) k + Mv b (total coins) k) /\ same_rest s' s.
+Proof.
+  induction coins as [|[t x] r IH]; intros s s' H.
+  - cbn in H. inversion H; subst. split; [|apply same_rest_refl].
+    intros [[hh kind] y]. unfold Mv. cbn. repeat match goal with |- context [if ?c then _ else _] => destruct c end; lia.
+  - cbn [map run_steps move_one] in H.
+    destruct (bal s (a, Base, t) <? x) eqn:E; cbn [bind] in H; [discriminate|].
+    set (s1 := set_bal s _) in H.
+    destruct (IH s1 s' H) as [Hbal Hrest]. split.
+    + intros k. rewrite Hbal. subst s1. cbn [bal set_bal]. rewrite ladd2_Mv.
+      rewrite (Mv_ext a (total ((t, x) :: r)) (fun y => one t x y + total r y) k) by (intros; apply total_cons).
+      rewrite (Mv_ext b (total ((t, x) :: r)) (fun y => one t x y + total r y) k) by (intros; apply total_cons).
+      rewrite !Mv_add. lia.
+    + eapply same_rest_trans; [exact Hrest|]. subst s1. apply same_rest_set_bal.
+Qed.
+
+Lemma move_succeeds a b coins : forall s,
+  a <> b -> ssorted coins ->
+  (forall t x, In (t, x) coins -> x <= bal s (a, Base, t)) ->
+  exists s', run_steps (map (move_one a b) coins) s = Ok s'.
+Proof.
+  induction coins as [|[t x] r IH]; intros s Hab Hs Hb.
+  - eexists. reflexivity.
+  - cbn [map run_steps move_one].
+    assert (Hx : x <= bal s (a, Base, t)) by (apply Hb; left; reflexivity).
+    destruct (Z.ltb_spec (bal s (a, Base, t)) x); [lia|]. cbn [bind].
+    destruct Hs as [Hlt Hs]. apply IH; [exact Hab|exact Hs|].
+    intros t' x' Hin. cbn [bal set_bal]. rewrite ladd2_Mv.
+    assert (t < t') by (eapply Hlt; eauto).
+    assert (Mv a (one t x) (a, Base, t') = 0 /\ Mv b (one t x) (a, Base, t') = 0) as [-> ->].
+    { unfold Mv, one. destruct (Z.eqb_spec t t'); [lia|]. split; repeat match goal with |- context [if ?c then _ else _] => destruct c end; reflexivity. }
+    specialize (Hb t' x' (or_intror Hin)). lia.
+Qed.
+
+(* ------------------------------------------------------------------------------------------ *)
 (** * boundary 2: BridgeCallHandler *)
 
 Section BC.
   Variable call : bst -> result bst.
 
   (* T1: whatever the failed inner step wrote (conversions of the first tokens, contract storage, …) is gone:
-     the outcome is the refund phase run on the state right after the deposits *)
+     the outcome is hand-over + refund run on the state right after the deposits *)
   Lemma bch_inner_discarded m s s1 c :
     run_steps (map (deposit_one (receiver m)) (m_tokens m)) s = Ok s1 ->
     bridge_call_evm call m (base_coins (m_tokens m)) s1 = Err c ->
-    bridge_call_handler call m s = failed_refund m (base_coins (m_tokens m)) s1.
+    bridge_call_handler call m s =
+    bind (hand_over m (base_coins (m_tokens m)) s1) (failed_refund m (base_coins (m_tokens m))).
   Proof.
     intros H1 H2. unfold bridge_call_handler, branch, discard. rewrite H1, H2. reflexivity.
   Qed.
@@ -383,94 +447,99 @@ Section BC.
     bridge_call_evm call m coins c0 = Err c'.
   Proof. intros H1 H2 H3. unfold bridge_call_evm. rewrite H1. cbn. rewrite H2. exact H3. Qed.
 
-  (* T4 (exact characterisation, ALL cases of a failed inner step):
-     - if the handler returns nil: the deposits stay with the RECEIVER, the refund was taken from the REFUND
-       address' own balance, one refund record was added;
-     - if it returns an error (refund address cannot pay): ExecuteClaim's transaction discards everything. *)
-  Lemma bch_failed_inner_ok m s c s' :
-    (forall t a, In (t, a) (m_tokens m) -> registered s t = true) ->
-    (forall s1, run_steps (map (deposit_one (receiver m)) (m_tokens m)) s = Ok s1 ->
-                bridge_call_evm call m (base_coins (m_tokens m)) s1 = Err c) ->
-    bridge_call_handler call m s = Ok s' ->
-    (forall k, bal s' k = bal s k + D (receiver m) (total (m_tokens m)) k - D (m_refund m) (total (m_tokens m)) k) /\
-    outcalls s' = outcalls s ++ [{| oc_id := next_id s; oc_sender := m_refund m; oc_refund := m_refund m;
-                                    oc_tokens := base_coins (m_tokens m); oc_event := m_nonce m |}] /\
-    next_id s' = next_id s + 1 /\ evmst s' = evmst s /\ (forall n, pendingc s' n = pendingc s n).
-  Proof.
-    intros Hreg Hfail Hok.
-    destruct (deposit_effect (receiver m) (m_tokens m) s Hreg) as (s1 & Hdep & Hbal1 & Hrest1).
-    rewrite (bch_inner_discarded m s s1 c Hdep (Hfail s1 Hdep)) in Hok.
-    unfold failed_refund in Hok.
-    destruct (run_steps (map (withdraw_one (m_refund m)) (base_coins (m_tokens m))) s1) as [s2|s2] eqn:Hw;
-      cbn [bind] in Hok; [|discriminate].
-    destruct (timeout_ok s2); [|discriminate]. inversion Hok; subst s'. clear Hok.
-    destruct (withdraw_effect _ _ _ _ Hw) as [Hbal2 Hrest2].
-    destruct Hrest1 as (P1&O1&N1&E1&_&_&_). destruct Hrest2 as (P2&O2&N2&E2&_&_&_).
-    cbn [bal outcalls next_id evmst pendingc add_outcall]. repeat split.
-    - intros k. rewrite Hbal2, Hbal1.
-      rewrite (D_ext (m_refund m) (total (base_coins (m_tokens m))) (total (m_tokens m)) k)
-        by (intros; apply total_base_coins). reflexivity.
-    - rewrite O2, O1, N2, N1. reflexivity.
-    - rewrite N2, N1. reflexivity.
-    - rewrite E2, E1. reflexivity.
-    - intros n. rewrite P2, P1. reflexivity.
-  Qed.
-
   Lemma bch_failed_inner_err_reverts m s e :
     execute_claim call m s = Err e -> execute_claim_tx call m s = (s, false).
   Proof. intros H. unfold execute_claim_tx. eapply tx_err; eauto. Qed.
 
-  (* T2: when the deposit holder IS the refund address the outcome is exactly the designated one *)
-  Lemma bch_same_holder_designated m s c :
-    receiver m = m_refund m -> 0 <= m_refund m ->
+  (* hand-over then refund from a state whose receiver holds the deposits: succeeds and nets to zero *)
+  Lemma hand_over_refund m s0 s1 :
+    0 <= receiver m -> 0 <= m_refund m ->
+    (forall k, bal s1 k = bal s0 k + D (receiver m) (total (m_tokens m)) k) -> same_rest s1 s0 ->
+    (forall t, 0 <= bal s0 (receiver m, Base, t)) -> (forall t, 0 <= bal s0 (m_refund m, Base, t)) ->
+    timeout_ok s0 = true ->
+    exists s3, bind (hand_over m (base_coins (m_tokens m)) s1) (failed_refund m (base_coins (m_tokens m))) =
+               Ok (add_outcall s3 {| oc_id := next_id s3; oc_sender := m_refund m; oc_refund := m_refund m;
+                                     oc_tokens := base_coins (m_tokens m); oc_event := m_nonce m |}) /\
+               (forall k, bal s3 k = bal s0 k) /\ same_rest s3 s0.
+  Proof.
+    intros Hr Hf Hbal1 Hrest1 Hnr Hnf Hto.
+    set (coins := base_coins (m_tokens m)) in *.
+    assert (Hsorted : ssorted coins) by apply ssorted_base_coins.
+    assert (Htot : forall t a, In (t, a) coins -> a = total (m_tokens m) t).
+    { intros t a Hin. rewrite <- (ssorted_in_total _ Hsorted t a Hin). apply total_base_coins. }
+    assert (HDself : forall h t, 0 <= h -> D h (total (m_tokens m)) (h, Base, t) = total (m_tokens m) t).
+    { intros h t Hh. unfold D, ModX, Supply, Base, Bridge.
+      repeat match goal with |- context [?a =? ?b] => destruct (Z.eqb_spec a b) end; cbn [andb]; try lia; try congruence. }
+    assert (HDother : forall h h' t, 0 <= h -> 0 <= h' -> h <> h' -> D h (total (m_tokens m)) (h', Base, t) = 0).
+    { intros h h' t Hh Hh' Hne. unfold D, ModX, Supply, Base, Bridge.
+      repeat match goal with |- context [?a =? ?b] => destruct (Z.eqb_spec a b) end; cbn [andb]; try lia; try congruence. }
+    (* phase 1: hand-over *)
+    assert (H2 : exists s2, hand_over m coins s1 = Ok s2 /\
+                 (forall k, bal s2 k = bal s0 k + D (m_refund m) (total (m_tokens m)) k) /\ same_rest s2 s0).
+    { unfold hand_over. destruct (Z.eqb_spec (receiver m) (m_refund m)) as [Heq|Hne]; cbn [orb].
+      - exists s1. split; [reflexivity|]. split; [|exact Hrest1]. intros k. rewrite Hbal1, Heq. reflexivity.
+      - destruct (match coins with [] => true | _ => false end) eqn:Eemp.
+        + assert (Ec : coins = []) by (destruct coins; [reflexivity|discriminate]).
+          exists s1. split; [reflexivity|]. split; [|exact Hrest1]. intros k. rewrite Hbal1.
+          assert (Hz : forall t, total (m_tokens m) t = 0).
+          { intros t. rewrite <- total_base_coins. fold coins. rewrite Ec. reflexivity. }
+          rewrite (D_ext _ _ (fun _ => 0) k Hz), (D_ext (m_refund m) _ (fun _ => 0) k Hz).
+          assert (HD0 : forall h, D h (fun _ => 0) k = 0).
+          { intros h. destruct k as [[hh kind] y]. unfold D. repeat match goal with |- context [if ?c then _ else _] => destruct c end; reflexivity. }
+          rewrite !HD0. reflexivity.
+        + destruct (move_succeeds (receiver m) (m_refund m) coins s1 Hne Hsorted) as (s2 & Hmv).
+          { intros t a Hin. rewrite Hbal1, (Htot t a Hin), HDself by exact Hr. specialize (Hnr t). lia. }
+          rewrite Hmv.
+          destruct (move_effect _ _ _ _ _ Hmv) as [Hb2 Hr2].
+          exists s2. split; [reflexivity|]. split; [|eapply same_rest_trans; eauto].
+          intros k. rewrite Hb2, Hbal1.
+          rewrite (Mv_ext (receiver m) (total coins) (total (m_tokens m)) k) by (intros; apply total_base_coins).
+          rewrite (Mv_ext (m_refund m) (total coins) (total (m_tokens m)) k) by (intros; apply total_base_coins).
+          rewrite !D_split. lia. }
+    destruct H2 as (s2 & Hho & Hbal2 & Hrest2). rewrite Hho. cbn [bind].
+    (* phase 2: the refund withdraws from the refund address *)
+    destruct (withdraw_succeeds (m_refund m) coins s2 Hf Hsorted) as (s3 & Hw).
+    { intros t a Hin. rewrite Hbal2, (Htot t a Hin), HDself by exact Hf. specialize (Hnf t). lia. }
+    destruct (withdraw_effect _ _ _ _ Hw) as [Hbal3 Hrest3].
+    assert (Hrest30 : same_rest s3 s0) by (eapply same_rest_trans; eauto).
+    exists s3. unfold failed_refund. rewrite Hw. cbn [bind].
+    destruct Hrest30 as (P&O&N&E&R&En&T). rewrite T, Hto. split; [reflexivity|]. split.
+    - intros k. rewrite Hbal3, Hbal2.
+      rewrite (D_ext (m_refund m) (total coins) (total (m_tokens m)) k) by (intros; apply total_base_coins). lia.
+    - repeat split; assumption.
+  Qed.
+
+  (* T2 (the property, unguarded): a failed inner step ends in exactly the designated outcome — claim consumed, one
+     refund record for the deposited amounts, every balance as before, nothing the failed step wrote *)
+  Lemma bch_designated m s c :
+    0 <= receiver m -> 0 <= m_refund m ->
     (forall t a, In (t, a) (m_tokens m) -> registered s t = true) ->
-    (forall t, 0 <= bal s (m_refund m, Base, t)) ->
+    (forall t, 0 <= bal s (receiver m, Base, t)) -> (forall t, 0 <= bal s (m_refund m, Base, t)) ->
     timeout_ok s = true -> pendingc s (m_nonce m) = true ->
     (forall s1, run_steps (map (deposit_one (receiver m)) (m_tokens m)) (del_pending s (m_nonce m)) = Ok s1 ->
                 bridge_call_evm call m (base_coins (m_tokens m)) s1 = Err c) ->
     exists s', execute_claim_tx call m s = (s', true) /\ bst_eq s' (bc_designated m s).
   Proof.
-    intros Hsame Hh Hreg Hnonneg Hto Hpend Hfail.
+    intros Hr Hf Hreg Hnr Hnf Hto Hpend Hfail.
     set (s0 := del_pending s (m_nonce m)).
     assert (Hreg0 : forall t a, In (t, a) (m_tokens m) -> registered s0 t = true) by (intros; cbn; eauto).
     destruct (deposit_effect (receiver m) (m_tokens m) s0 Hreg0) as (s1 & Hdep & Hbal1 & Hrest1).
-    assert (Hw : exists s2, run_steps (map (withdraw_one (m_refund m)) (base_coins (m_tokens m))) s1 = Ok s2).
-    { apply withdraw_succeeds; [exact Hh|apply ssorted_base_coins|].
-      intros t a Hin. rewrite Hbal1, Hsame.
-      rewrite <- (ssorted_in_total _ (ssorted_base_coins (m_tokens m)) t a Hin), total_base_coins.
-      assert (D (m_refund m) (total (m_tokens m)) (m_refund m, Base, t) = total (m_tokens m) t).
-      { unfold D, ModX, Supply, Base, Bridge.
-        repeat match goal with |- context [?a =? ?b] => destruct (Z.eqb_spec a b) end;
-          cbn [andb]; try lia; try congruence. }
-      rewrite H. specialize (Hnonneg t). subst s0. cbn [bal del_pending]. lia. }
-    destruct Hw as (s2 & Hw).
-    destruct (withdraw_effect _ _ _ _ Hw) as [Hbal2 Hrest2].
-    destruct Hrest1 as (P1&O1&N1&E1&R1&En1&T1). destruct Hrest2 as (P2&O2&N2&E2&R2&En2&T2).
-    assert (Hto2 : timeout_ok s2 = true) by (rewrite T2, T1; exact Hto).
-    assert (Hh' : bridge_call_handler call m s0 =
-                  Ok (add_outcall s2 {| oc_id := next_id s2; oc_sender := m_refund m; oc_refund := m_refund m;
-                                        oc_tokens := base_coins (m_tokens m); oc_event := m_nonce m |})).
-    { rewrite (bch_inner_discarded m s0 s1 c Hdep (Hfail s1 Hdep)). unfold failed_refund. rewrite Hw. cbn [bind].
-      rewrite Hto2. reflexivity. }
+    destruct (hand_over_refund m s0 s1 Hr Hf Hbal1 Hrest1) as (s3 & Hres & Hbal3 & Hrest3); try assumption.
     eexists. split.
-    - unfold execute_claim_tx, tx, execute_claim, branch, commit. rewrite Hpend. fold s0. rewrite Hh'. reflexivity.
-    - unfold bc_designated. fold s0. unfold bst_eq. cbn [bal outcalls next_id evmst pendingc add_outcall registered enabled timeout_ok].
-      repeat split.
-      + intros k. rewrite Hbal2, Hbal1, Hsame.
-        rewrite (D_ext (m_refund m) (total (base_coins (m_tokens m))) (total (m_tokens m)) k)
-          by (intros; apply total_base_coins). lia.
-      + intros n. rewrite P2, P1. reflexivity.
-      + rewrite O2, O1, N2, N1. reflexivity.
-      + rewrite N2, N1. reflexivity.
-      + rewrite E2, E1. reflexivity.
-      + intros t. rewrite R2, R1. reflexivity.
-      + intros t. rewrite En2, En1. reflexivity.
-      + rewrite T2, T1. reflexivity.
+    - unfold execute_claim_tx, tx, execute_claim, branch, commit. rewrite Hpend. fold s0.
+      rewrite (bch_inner_discarded m s0 s1 c Hdep (Hfail s1 Hdep)), Hres. reflexivity.
+    - destruct Hrest3 as (P&O&N&E&R&En&T).
+      unfold bc_designated. fold s0. unfold bst_eq.
+      cbn [bal outcalls next_id evmst pendingc add_outcall registered enabled timeout_ok].
+      repeat split; try assumption; try congruence.
   Qed.
 End BC.
 
 (* ------------------------------------------------------------------------------------------ *)
-(** * T3: the full statement is FALSE of the faithful model — concrete witness *)
+(** * the handler BEFORE the fix (snapshot 6774338): the same statement was false — kept as a labelled regression *)
+
+Definition execute_claim_tx_prefix (call : bst -> result bst) (m : bcmsg) (s : bst) : bst * bool :=
+  tx (fun x => if pendingc x (m_nonce m) then bridge_call_handler_prefix call m (del_pending x (m_nonce m)) else Err x) s.
 
 Definition wit_bal : ledger := fun k => if key_eqb k (2, Base, 0) then 10 else 0.
 Definition wit_state : bst :=
@@ -481,37 +550,31 @@ Definition wit_msg : bcmsg :=
   {| m_nonce := 7; m_sender := 3; m_refund := 2; m_to := 1; m_to_is_contract := true; m_sendcallto := false;
      m_tokens := [(0, 10)] |}.
 Definition wit_call : bst -> result bst := fun c => Err (set_evmst c 99).
-
-Lemma bch_refuted_witness :
-  let (post, ok) := execute_claim_tx wit_call wit_msg wit_state in
-  ok = true /\
-  bal post (1, Base, 0) = 10 /\ bal (bc_designated wit_msg wit_state) (1, Base, 0) = 0 /\
-  bal post (2, Base, 0) = 0  /\ bal (bc_designated wit_msg wit_state) (2, Base, 0) = 10 /\
-  evmst post = 0 /\ length (outcalls post) = 1%nat.
-Proof. vm_compute. repeat split. Qed.
-
-Lemma bch_refuted :
-  exists call m s post, execute_claim_tx call m s = (post, true) /\
-    (exists c s1, run_steps (map (deposit_one (receiver m)) (m_tokens m)) (del_pending s (m_nonce m)) = Ok s1 /\
-                  bridge_call_evm call m (base_coins (m_tokens m)) s1 = Err c) /\
-    ~ bst_eq post (bc_designated m s).
-Proof.
-  exists wit_call, wit_msg, wit_state.
-  destruct (execute_claim_tx wit_call wit_msg wit_state) as [post ok] eqn:E.
-  exists post. pose proof bch_refuted_witness as W. rewrite E in W.
-  destruct W as (Hok & H1 & H2 & _). subst ok. split; [reflexivity|]. split.
-  - eexists. eexists. split; vm_compute; reflexivity.
-  - intros (Hb & _). specialize (Hb (1, Base, 0)). rewrite H1, H2 in Hb. discriminate.
-Qed.
-
-(* refund address without funds: the handler errors, the transaction reverts, the claim stays pending *)
 Definition wit_state_poor : bst :=
   {| bal := fun _ => 0; registered := fun _ => true; enabled := fun _ => true;
      pendingc := fun n => n =? 7; outcalls := []; next_id := 1; timeout_ok := true; evmst := 0 |}.
-Lemma bch_poor_refund_reverts :
-  let (post, ok) := execute_claim_tx wit_call wit_msg wit_state_poor in
-  ok = false /\ pendingc post 7 = true /\ outcalls post = [] /\ bal post (1, Base, 0) = 0.
+
+Lemma prefix_refuted_witness :
+  (let (post, ok) := execute_claim_tx_prefix wit_call wit_msg wit_state in
+   ok = true /\ bal post (1, Base, 0) = 10 /\ bal post (2, Base, 0) = 0 /\ length (outcalls post) = 1%nat) /\
+  (let (post, ok) := execute_claim_tx_prefix wit_call wit_msg wit_state_poor in
+   ok = false /\ pendingc post 7 = true /\ outcalls post = []) /\
+  (* the same inputs on the handler as it is now *)
+  (let (post, ok) := execute_claim_tx wit_call wit_msg wit_state in
+   ok = true /\ bal post (1, Base, 0) = 0 /\ bal post (2, Base, 0) = 10 /\ length (outcalls post) = 1%nat /\ evmst post = 0) /\
+  (let (post, ok) := execute_claim_tx wit_call wit_msg wit_state_poor in
+   ok = true /\ bal post (1, Base, 0) = 0 /\ bal post (2, Base, 0) = 0 /\ length (outcalls post) = 1%nat /\ pendingc post 7 = false).
 Proof. vm_compute. repeat split. Qed.
+
+Lemma prefix_refuted :
+  exists call m s post, execute_claim_tx_prefix call m s = (post, true) /\ ~ bst_eq post (bc_designated m s).
+Proof.
+  exists wit_call, wit_msg, wit_state.
+  destruct (execute_claim_tx_prefix wit_call wit_msg wit_state) as [post ok] eqn:E.
+  exists post. pose proof prefix_refuted_witness as [W _]. rewrite E in W.
+  destruct W as (Hok & H1 & _). subst ok. split; [reflexivity|].
+  intros (Hb & _). specialize (Hb (1, Base, 0)). rewrite H1 in Hb. vm_compute in Hb. discriminate.
+Qed.
 
 (* ------------------------------------------------------------------------------------------ *)
 (** * non-vacuity *)
@@ -519,15 +582,21 @@ Proof. vm_compute. repeat split. Qed.
 Definition nv_msg : bcmsg :=
   {| m_nonce := 7; m_sender := 3; m_refund := 1; m_to := 1; m_to_is_contract := true; m_sendcallto := false;
      m_tokens := [(1, 5); (0, 10); (1, 2)] |}.
+Definition nv_msg2 : bcmsg :=
+  {| m_nonce := 7; m_sender := 3; m_refund := 2; m_to := 1; m_to_is_contract := true; m_sendcallto := false;
+     m_tokens := [(1, 5); (0, 10); (1, 2)] |}.
 Lemma c18_nonvacuous :
-  (* same-holder case reaches the designated outcome with several tokens, a duplicate, and a contract that wrote *)
+  (* several tokens, a duplicate, a contract that wrote before reverting — refund address = receiver and <> receiver *)
   (let (post, ok) := execute_claim_tx wit_call nv_msg wit_state_poor in
    ok = true /\ bal post (1, Base, 0) = 0 /\ bal post (1, Base, 1) = 0 /\ evmst post = 0 /\
    map oc_tokens (outcalls post) = [[(0, 10); (1, 7)]] /\ pendingc post 7 = false) /\
+  (let (post, ok) := execute_claim_tx wit_call nv_msg2 wit_state_poor in
+   ok = true /\ bal post (1, Base, 0) = 0 /\ bal post (2, Base, 1) = 0 /\ evmst post = 0 /\
+   map oc_refund (outcalls post) = [2] /\ pendingc post 7 = false) /\
   (* a disabled pair at the second coin fails inside the cache after the first conversion was written *)
   (let s := {| bal := fun _ => 0; registered := fun _ => true; enabled := fun t => t =? 0;
                pendingc := fun n => n =? 7; outcalls := []; next_id := 1; timeout_ok := true; evmst := 0 |} in
-   let (post, ok) := execute_claim_tx (fun c => Ok c) nv_msg s in
+   let (post, ok) := execute_claim_tx (fun c => Ok c) nv_msg2 s in
    ok = true /\ bal post (1, Erc, 0) = 0 /\ bal post (1, Base, 0) = 0 /\ length (outcalls post) = 1%nat) /\
   (* generic boundaries on a counter: handler / message / hook that write 1 then fail *)
   try_attestation Z (fun x => Err (x + 1)) (fun x => x + 10) (fun x => x) 0 = (10, false) /\
